@@ -191,6 +191,14 @@ func genCfg(r *verifsim.Run, focus string) cCfg {
 		c.Model = lepton3.Model35 // throttled files are matched through TimeOn, which the Boson converter fabricates
 	}
 	c.W, c.H = r.Range(4, 10), r.Range(4, 8)
+	if r.Tier == "thorough" && r.Chance(1, 25) {
+		// realistic sensor sizes (Lepton 160x120 with its real 39040-byte frames, Boson 320x256)
+		if c.Model == "boson" {
+			c.W, c.H = 320, 256
+		} else {
+			c.W, c.H = 160, 120
+		}
+	}
 	c.Fps = r.OneOf(1, 2, 3, 5, 9, 9)
 	c.Serial = r.OneOf(0, 1, 12345, r.Draw(1<<31))
 	c.Firmware = []string{"", "1.2.3", "3.3.26", randName(r, 40), randName(r, 250), "Lepton 3.5 radiometric build 2019-11-05 (gpp 3.3.26 dsp 3.3.26) shuttered, factory calibrated unit"}[r.Draw(6)]
@@ -1171,6 +1179,9 @@ func checkE2E(r *verifsim.Run, sc *cScenario, res *cResult) {
 		if c.MinDiskMB >= 1000000 {
 			r.Probe("disk-refusal-through-statfs")
 		}
+		if c.W >= 160 {
+			r.Probe("realistic-sensor-size")
+		}
 		if c.boson() {
 			r.Probe("boson")
 		} else {
@@ -1508,6 +1519,7 @@ type cSchedOpts struct {
 	Observe  func(s *verifsim.Sched, outDir string, res *cSchedResult) // called at every quiescent point
 	MaxFree  int
 	Stalls   []int // optional: stall the frame loop for n steps at the k-th quiescent point (pairs k,n)
+	Triggers bool  // also run the real snapshotRecordingTriggers as a task
 }
 
 func uniformValue(f *cptvframe.Frame) (int, string) {
@@ -1603,6 +1615,11 @@ func execSched(r *verifsim.Run, sc *cScenario, opt cSchedOpts) *cSchedResult {
 					}
 					if ci == 0 {
 						deleteTempFiles(conf.OutputDir)
+					}
+					if ci == 0 && opt.Triggers {
+						// the daemon's own periodic test-recording triggers (real snapshotRecordingTriggers, finite-window path)
+						win := conf.Recorder.Window
+						s.Go("window-triggers", func() { snapshotRecordingTriggers(win) })
 					}
 					a, b := net.Pipe()
 					pipes = append(pipes, a, b)
